@@ -261,3 +261,5 @@ def check(ctx, run):  # noqa: F811
                 raise AnalysisError(f"{q}: {ex}")
             _c10.moments_local_vol(ctx, run, res_, rule="C13.R8", grid_only=True)
     run.require("C13.R8", 1)
+    from ..registry import resimulation_rule
+    resimulation_rule(ctx, run, "C13.R7", only=("resim-state",))
